@@ -53,10 +53,17 @@ def _finalize_pending():
             table.append([i, 'static', kind])
 
 
+class _Dummy(object):
+    nodes = {}
+
+
 def _snapshot(node, with_static=True):
     converter, anno, parser, directives = _malt()
     if not with_static:
         _finalize_pending()
+    if _state.get('cur') not in MODELLED:
+        # a pass that is not modelled here (jump lowering, control flow): do not pay for its snapshots
+        return ['SKIPPED'], [], _Dummy
     sx, table, ser = _state['orig'](node, with_static)
     for i, n in ser.nodes.items():
         if not hasattr(n, '___pyct_anno'):
@@ -79,11 +86,19 @@ def _snapshot(node, with_static=True):
 def trace(fn, options):
     """passes.trace_conversion with the extra annotations."""
     _state['orig'] = passes.snapshot
+    orig_rec = passes.PassRecord
+
+    class Rec(orig_rec):
+        def __init__(self, name):
+            orig_rec.__init__(self, name)
+            _state['cur'] = name
     passes.snapshot = _snapshot
+    passes.PassRecord = Rec
     try:
         tr = passes.trace_conversion(fn, options)
     finally:
         passes.snapshot = _state['orig']
+        passes.PassRecord = orig_rec
         _finalize_pending()
     return tr
 
@@ -144,7 +159,7 @@ def _is_stmt(sx):
 def request(rec, tr, options, generated_before):
     """Driver line for one recorded pass, or None when the pass is not modelled / its snapshot failed."""
     op = MODELLED.get(rec.name)
-    if op is None or not isinstance(rec.before, list) or (rec.before and rec.before[0] == 'SNAPSHOT-ERROR'):
+    if op is None or not isinstance(rec.before, list) or (rec.before and rec.before[0] in ('SNAPSHOT-ERROR', 'SKIPPED')):
         return None
     keys = NEEDED[op]
     annos = [a for a in (rec.before_annos or []) if a[1] in keys]
